@@ -151,17 +151,29 @@ RdAccept(h, e) == h.rdfilter = 0 \/ (h.rdfilter = 1 /\ Len(e.t) % 2 = 0) \/ (h.r
 FsView(f) == LET h == fs.h[f] IN SelectSeq(fs.sh[h.set].view, LAMBDA e : FnAccept(h, e) /\ RdAccept(h, e))
 
 FsContent(f, v) == MergedOf([i \in 1..Len(v) |-> [t |-> v[i].t, ord |-> TRUE]], fs.h[f].merge, fs.h[f].dupsort)
-RECURSIVE Content(_)
+\* does producing entry e of a merged table involve a failing merge call?
+FailTokOf(src) == IF src.t = "m" THEN mg[src.n].failtok ELSE IF src.t = "s" THEN so[src.n].failtok ELSE -1
+EntryFails(e, ft) == ft >= 0 /\ "n" \in DOMAIN e /\ e.n > 1 /\ \E i \in 1..Len(Tokens(e.v)) : Tokens(e.v)[i] = ft
+\* the entries of a table before the first one whose production fails
+BeforeFailure(t, ft) ==
+    LET bad == {i \in 1..Len(t) : EntryFails(t[i], ft)}
+    IN IF bad = {} THEN t ELSE SubSeq(t, 1, (CHOOSE i \in bad : \A j \in bad : i <= j) - 1)
+RECURSIVE Content(_), AsPart(_)
 Content(src) ==
     CASE src.t = "r" -> [t |-> rd[src.n].t, ord |-> TRUE]
       [] src.t = "u" -> [t |-> us[src.n].t, ord |-> Strict(us[src.n].t)]
       [] src.t = "m" -> LET m == mg[src.n] IN
-                        MergedOf([i \in 1..Len(m.srcs) |-> Content(m.srcs[i])], m.merge, m.dupsort)
+                        MergedOf([i \in 1..Len(m.srcs) |-> AsPart(m.srcs[i])], m.merge, m.dupsort)
       [] src.t = "f" -> FsContent(src.n, FsView(src.n))
-
-\* does producing entry e of a merged table involve a failing merge call?
-FailTokOf(src) == IF src.t = "m" THEN mg[src.n].failtok ELSE IF src.t = "s" THEN so[src.n].failtok ELSE -1
-EntryFails(e, ft) == ft >= 0 /\ "n" \in DOMAIN e /\ e.n > 1 /\ \E i \in 1..Len(Tokens(e.v)) : Tokens(e.v)[i] = ft
+\* What a source contributes when it is iterated by a merger from the start. The iterator protocol has a single failure
+\* value: a merger used as a source whose merge function fails at an entry returns failure there (C04, judged on that
+\* merger's own iterators), and the merger above it cannot tell this from the end of the source - the source ends before
+\* that entry. (Deliberate, named deviation from "flattening": the property speaks about the merger whose merge function
+\* reports failure; histories that seek a merger above a failing merger are not generated.)
+AsPart(src) ==
+    LET c == Content(src)
+    IN IF src.t = "m" /\ mg[src.n].merge /\ mg[src.n].failtok >= 0
+       THEN [c EXCEPT !.t = BeforeFailure(c.t, mg[src.n].failtok)] ELSE c
 
 \* ------------------------------------------------------------------ iterators (C02 C03 C05)
 Bound(kind, k0, k1) == [kind |-> kind, k0 |-> k0, k1 |-> k1]
